@@ -40,6 +40,24 @@ def _s17_view(s):
     return _tm_fields(s.pus_tm)
 
 
+def _detached_view(fields):
+    """every observable of a decoded telemetry packet for the receive-buffer probe (core.decode_detached): the fields,
+    the stored checksum and the octets it packs to"""
+    def view(t):
+        f = dict(fields(t))
+        tm = getattr(t, "pus_tm", t)
+        f["crc16"] = None if tm.crc16 is None else hx(tm.crc16)
+        try:
+            f["raw"] = hx(t.pack())
+        except (ValueError, struct.error):
+            f["raw"] = None
+        return f
+    return view
+
+
+_TM_VIEW, _S17_VIEW = _detached_view(_tm_fields), _detached_view(_s17_view)
+
+
 def op_tm_new(a):
     return _tm_fields(_tm(a))
 
@@ -75,6 +93,10 @@ def op_tm_unpack(a):
     f = core.ISOLATION.check("PusTm", t, _tm_fields)
     if core.pack_stable(t, "PusTm.pack() of a decoded packet") != raw[:t.packet_len]:
         raise SelfCheckFailure("pack(unpack(b)) != b[:packet_len]")
+    # decoded out of a receive buffer (a bytearray) that the receiver reuses afterwards: time stamp, source data and
+    # checksum of the decoded packet are still the ones that were on the wire
+    core.check_detached(lambda b: PusTm.unpack(b, a["ts_len"]), raw, _TM_VIEW, "PusTm.unpack", expect=_TM_VIEW(t),
+                        memview=core.accepts_memoryview(PusTm.unpack))
     return f
 
 
@@ -94,8 +116,12 @@ def op_s17_pack(a):
 
 
 def op_s17_unpack(a):
-    s = Service17Tm.unpack(unhx(a["raw"]), a["ts_len"])
-    return core.ISOLATION.check("Service17Tm", s, _s17_view)
+    raw = unhx(a["raw"])
+    s = Service17Tm.unpack(raw, a["ts_len"])
+    f = core.ISOLATION.check("Service17Tm", s, _s17_view)
+    core.check_detached(lambda b: Service17Tm.unpack(b, a["ts_len"]), raw, _S17_VIEW, "Service17Tm.unpack", expect=_S17_VIEW(s),
+                        memview=core.accepts_memoryview(Service17Tm.unpack))
+    return f
 
 
 def op_service_from_bytes(a):
